@@ -43,11 +43,15 @@ func clamp(n, lo, hi int) int {
 }
 
 type scriptedReader struct {
-	data []byte
-	err  error
+	data    []byte
+	err     error
+	withErr bool // deliver the data together with err in one call (allowed by io.Reader: "n > 0 and err != nil")
 }
 
 func (r *scriptedReader) Read(p []byte) (int, error) {
+	if r.err != nil && r.withErr {
+		return copy(p, r.data), r.err
+	}
 	if r.err != nil {
 		return 0, r.err
 	}
@@ -353,12 +357,27 @@ func propC09(t *rapid.T) {
 			"readFrom": func(t *rapid.T) {
 				n := rapid.IntRange(0, 600).Draw(t, "n")
 				r := &scriptedReader{data: fresh(n)}
-				if rapid.IntRange(0, 5).Draw(t, "fail") == 0 {
+				switch rapid.IntRange(0, 7).Draw(t, "fail") {
+				case 0:
 					r.err = errScripted
+				case 1:
+					r.err, r.withErr = io.EOF, true // the last chunk of a stream, delivered with its EOF
 				}
 				room := b.Reserved()
 				k, err := b.ReadFrom(r)
-				log("ReadFrom(%d,room=%d,err=%v)=(%d,%v)", n, room, r.err, k, err)
+				log("ReadFrom(%d,room=%d,err=%v,withData=%v)=(%d,%v)", n, room, r.err, r.withErr, k, err)
+				if r.withErr {
+					// the error must be passed on; whether the bytes that came with it are kept (appended to the
+					// uncommitted area) or dropped is the library's choice, but it must be one of the two, completely
+					if err == nil {
+						t.Fatalf("ReadFrom with a reader returning data and %v returned (%d,nil); trace=%v", r.err, k, trace)
+					}
+					got := clamp(n, 0, room)
+					if b.WriteLen() == len(m.pending)+got && got > 0 {
+						m.pending = append(m.pending, r.data[:got]...)
+					}
+					return
+				}
 				if r.err != nil {
 					if err == nil || k != 0 {
 						t.Fatalf("ReadFrom with failing reader returned (%d,%v); trace=%v", k, err, trace)
